@@ -37,11 +37,12 @@ func TestChanShare(t *testing.T) {
 			for _, p := range plan {
 				switch {
 				case p < 35 && !closed: // send if there is room
-					select {
-					case c <- next + 1:
+					// only the harness sends: if there is room now there is room when the send happens. The send record is
+					// written first - a waiting receiver may log its result before this goroutine runs again.
+					if len(c) < cap(c) {
 						next++
 						r.emit(Ev{"ev": "send", "v": next})
-					default:
+						c <- next
 					}
 				case p < 85: // one receiver, or all idle receivers at once, call Next
 					js := []int{p % nr}
